@@ -5,6 +5,14 @@
                     (CelloGen/Hash.lean: constants, block steps, tail switch table, final steps);
     `murmur64A`   : the textbook MurmurHash64A (the specification `hashData` is proved equal to in Props/C10.lean).
   * per-type `hash`/`cmp`: Int, Float (on the bit pattern), String, Type (by name), plain structs and Ref/Box (byte-wise defaults).
+  * `Float_Cmp` three times: `floatCmp` — the decision on the bit pattern (for non-NaN doubles the sign of the exact difference
+    `floatVal a - floatVal b`); `progCmp ops` — the interpreter of the statements the translator extracts from `Float_Cmp`
+    (CelloGen/Hash.lean: `floatCmpStmts`, `floatCmpRet`) over a record `FOps` of double operations; `sfOps` — IEEE-754 binary64
+    subtraction / multiplication (round to nearest even, gradual underflow, infinities, NaN) and comparisons computed exactly
+    on the bit patterns, so that the kernel can evaluate the extracted program. `SubSign ops` is the one fact about the
+    arithmetic the Float theorems use; it is proved for `sfOps` and tested for the machine's doubles by the driver.
+  * look-ups: `tableGet` (the probe loop of `Table_Get` / `Table_Mem`), `shGet` (the descent of `Tree_Get` / `Tree_Mem`).
+  * `assignSelfVal`: `assign(x, x)` (the early return of Array/List/Table/Tree_Assign, as extracted).
   * containers    : `seqHash`/`mapHash` (the folds of Array/List/Tuple_Hash and Table/Tree_Hash), `seqCmp`/`mapCmp` (parallel
                     iteration of X_Cmp), the Table's robin-hood slot array (because `Table_Cmp` iterates in slot order), the Tree as
                     its iteration sequence.
@@ -24,7 +32,7 @@
 import CelloGen.Hash
 
 namespace Cello.Hash
-open CelloGen.Hash (Step TailStmt Comb SizeTerm)
+open CelloGen.Hash (Step TailStmt Comb SizeTerm FExpr FCond FStmt FRet)
 
 abbrev Bytes := List UInt8
 
@@ -159,6 +167,147 @@ def floatCmp (a b : UInt64) : Int :=
 /-- `Float_Hash`: the bits, a zero first replaced by +0.0 when the source normalises (fix b70dd46) -/
 def floatHash (normalise : Bool) (b : UInt64) : UInt64 :=
   if normalise && floatIsZero b then 0 else b
+
+
+/-! ### `Float_Cmp` as a program over `double`, and an exact IEEE-754 binary64 arithmetic on bit patterns -/
+
+/-- the operations on `double` that the fragment of `Float_Cmp` uses (doubles are carried as their 64 bits) -/
+structure FOps where
+  sub : UInt64 → UInt64 → UInt64
+  add : UInt64 → UInt64 → UInt64
+  mul : UInt64 → UInt64 → UInt64
+  neg : UInt64 → UInt64
+  fabs : UInt64 → UInt64
+  fmax : UInt64 → UInt64 → UInt64
+  fmin : UInt64 → UInt64 → UInt64
+  lt : UInt64 → UInt64 → Bool
+  le : UInt64 → UInt64 → Bool
+  eq : UInt64 → UInt64 → Bool
+
+def evalE (ops : FOps) (self obj : UInt64) (locs : List UInt64) : FExpr → UInt64
+  | .self => self
+  | .obj => obj
+  | .loc i => locs.getD i 0          -- the translator refuses a use before the declaration
+  | .lit b => b
+  | .sub a b => ops.sub (evalE ops self obj locs a) (evalE ops self obj locs b)
+  | .add a b => ops.add (evalE ops self obj locs a) (evalE ops self obj locs b)
+  | .mul a b => ops.mul (evalE ops self obj locs a) (evalE ops self obj locs b)
+  | .neg a => ops.neg (evalE ops self obj locs a)
+  | .fabs a => ops.fabs (evalE ops self obj locs a)
+  | .fmax a b => ops.fmax (evalE ops self obj locs a) (evalE ops self obj locs b)
+  | .fmin a b => ops.fmin (evalE ops self obj locs a) (evalE ops self obj locs b)
+
+def evalC (ops : FOps) (self obj : UInt64) (locs : List UInt64) : FCond → Bool
+  | .lt a b => ops.lt (evalE ops self obj locs a) (evalE ops self obj locs b)
+  | .le a b => ops.le (evalE ops self obj locs a) (evalE ops self obj locs b)
+  | .gt a b => ops.lt (evalE ops self obj locs b) (evalE ops self obj locs a)
+  | .ge a b => ops.le (evalE ops self obj locs b) (evalE ops self obj locs a)
+  | .eq a b => ops.eq (evalE ops self obj locs a) (evalE ops self obj locs b)
+  | .ne a b => !ops.eq (evalE ops self obj locs a) (evalE ops self obj locs b)
+  | .and p q => evalC ops self obj locs p && evalC ops self obj locs q
+  | .or p q => evalC ops self obj locs p || evalC ops self obj locs q
+  | .not p => !evalC ops self obj locs p
+
+/-- store into local `i` (locals are numbered in order of declaration, so `i ≤ locs.length`) -/
+def setLoc (locs : List UInt64) (i : Nat) (v : UInt64) : List UInt64 :=
+  if i < locs.length then locs.set i v else locs ++ List.replicate (i - locs.length) 0 ++ [v]
+
+/-- the statements before the final `return`: `.error v` = an early `return v` -/
+def runStmts (ops : FOps) (self obj : UInt64) : List FStmt → List UInt64 → Except Int (List UInt64)
+  | [], locs => .ok locs
+  | .set i e :: rest, locs => runStmts ops self obj rest (setLoc locs i (evalE ops self obj locs e))
+  | .setIf c i e :: rest, locs =>
+    runStmts ops self obj rest (if evalC ops self obj locs c then setLoc locs i (evalE ops self obj locs e) else locs)
+  | .retIf c v :: rest, locs => if evalC ops self obj locs c then .error v else runStmts ops self obj rest locs
+
+def evalRet (ops : FOps) (self obj : UInt64) (locs : List UInt64) : FRet → Int
+  | .val v => v
+  | .ite c t e => if evalC ops self obj locs c then evalRet ops self obj locs t else evalRet ops self obj locs e
+
+/-- a `Float_Cmp` given as statements and final `return`, run on `self = a`, `obj = b` -/
+def progCmp (ops : FOps) (stmts : List FStmt) (ret : FRet) (a b : UInt64) : Int :=
+  match runStmts ops a b stmts [] with
+  | .error v => v
+  | .ok locs => evalRet ops a b locs ret
+
+/-- `Float_Cmp` as it is in the source now -/
+def floatCmpSrc (ops : FOps) (a b : UInt64) : Int := progCmp ops CelloGen.Hash.floatCmpStmts CelloGen.Hash.floatCmpRet a b
+
+/-- the plain sign of the difference: `double c = Float_C_Float(self) - c_float(obj); return c > 0 ? 1 : c < 0 ? -1 : 0;` -/
+def exactStmts : List FStmt := [.set 0 (.sub .self .obj)]
+def exactRet : FRet := .ite (.gt (.loc 0) (.lit 0)) (.val 1) (.ite (.lt (.loc 0) (.lit 0)) (.val (-1)) (.val 0))
+
+/-- the one fact about double arithmetic the Float theorems use: for two non-NaN doubles the difference is positive (negative)
+    exactly when the minuend lies above (below) the subtrahend on the number line; with a NaN operand it is neither -/
+structure SubSign (ops : FOps) : Prop where
+  pos : ∀ a b, floatIsNaN a = false → floatIsNaN b = false → (ops.lt 0 (ops.sub a b) = true ↔ floatKey b < floatKey a)
+  neg : ∀ a b, floatIsNaN a = false → floatIsNaN b = false → (ops.lt (ops.sub a b) 0 = true ↔ floatKey a < floatKey b)
+  nan : ∀ a b, (floatIsNaN a || floatIsNaN b) = true → ops.lt 0 (ops.sub a b) = false ∧ ops.lt (ops.sub a b) 0 = false
+
+/-- value of the magnitude bits `m` (exponent field `m / 2^52`, fraction `m % 2^52`) in units of 2^-1074, the smallest
+    subnormal: exact for every finite double; the infinity pattern reads as 2^2098, above every finite value -/
+def magVal (m : Nat) : Nat :=
+  if m / 2 ^ 52 = 0 then m % 2 ^ 52 else (2 ^ 52 + m % 2 ^ 52) * 2 ^ (m / 2 ^ 52 - 1)
+
+/-- the exact value of a finite double, in units of 2^-1074 -/
+def floatVal (b : UInt64) : Int := if floatNeg b then - (magVal (floatMag b) : Int) else (magVal (floatMag b) : Int)
+
+def infMag : Nat := 0x7ff0000000000000
+def floatIsInf (b : UInt64) : Bool := floatMag b == infMag
+/-- the quiet NaN the x86-64 SSE unit produces for an invalid operation -/
+def sfNaN : UInt64 := 0xfff8000000000000
+def mkBits (neg : Bool) (mag : Nat) : UInt64 := UInt64.ofNat ((if neg then 2 ^ 63 else 0) + mag)
+
+/-- round `n / 2^s` units of 2^-1074 to the nearest double (ties to even; overflow to infinity): the magnitude bits of the result.
+    `t` = number of low bits dropped: at least `s`, and enough to leave 53 significant bits; exponent field = `t - s` (+1 through
+    the carry into bit 52) -/
+def roundQ (n s : Nat) : Nat :=
+  let t := max s (Nat.log2 n - 52)
+  let q := n / 2 ^ t
+  let r := n % 2 ^ t
+  let up := decide (0 < t) && (decide (2 ^ (t - 1) < r) || (r == 2 ^ (t - 1) && q % 2 == 1))
+  let bits := (t - s) * 2 ^ 52 + (if up then q + 1 else q)
+  if infMag ≤ bits then infMag else bits
+
+/-- IEEE-754 `a - b` -/
+def sfSub (a b : UInt64) : UInt64 :=
+  if floatIsNaN a || floatIsNaN b then sfNaN
+  else if floatIsInf a then (if floatIsInf b && floatNeg a == floatNeg b then sfNaN else a)
+  else if floatIsInf b then mkBits (!floatNeg b) infMag
+  else
+    let d := floatVal a - floatVal b
+    if d = 0 then (if floatNeg a && !floatNeg b then mkBits true 0 else 0)
+    else mkBits (decide (d < 0)) (roundQ d.natAbs 0)
+
+def sfNeg (a : UInt64) : UInt64 := mkBits (!floatNeg a) (floatMag a)
+def sfAbs (a : UInt64) : UInt64 := mkBits false (floatMag a)
+
+/-- IEEE-754 `a * b`: the exact product is `magVal a * magVal b` units of 2^-2148 -/
+def sfMul (a b : UInt64) : UInt64 :=
+  if floatIsNaN a || floatIsNaN b then sfNaN
+  else if (floatIsInf a && floatIsZero b) || (floatIsZero a && floatIsInf b) then sfNaN
+  else if floatIsInf a || floatIsInf b then mkBits (floatNeg a != floatNeg b) infMag
+  else mkBits (floatNeg a != floatNeg b) (roundQ (magVal (floatMag a) * magVal (floatMag b)) 1074)
+
+def sfLt (a b : UInt64) : Bool := !floatIsNaN a && !floatIsNaN b && decide (floatKey a < floatKey b)
+def sfLe (a b : UInt64) : Bool := !floatIsNaN a && !floatIsNaN b && decide (floatKey a ≤ floatKey b)
+def sfEq (a b : UInt64) : Bool := !floatIsNaN a && !floatIsNaN b && decide (floatKey a = floatKey b)
+/-- `fmax` / `fmin`: a NaN operand is ignored -/
+def sfMax (a b : UInt64) : UInt64 := if floatIsNaN a then b else if floatIsNaN b then a else if sfLt a b then b else a
+def sfMin (a b : UInt64) : UInt64 := if floatIsNaN a then b else if floatIsNaN b then a else if sfLt b a then b else a
+
+/-- IEEE-754 binary64 on bit patterns, computed exactly (the kernel can evaluate it; the driver tests it against the machine) -/
+def sfOps : FOps where
+  sub := sfSub
+  add a b := sfSub a (sfNeg b)
+  mul := sfMul
+  neg := sfNeg
+  fabs := sfAbs
+  fmax := sfMax
+  fmin := sfMin
+  lt := sfLt
+  le := sfLe
+  eq := sfEq
 
 /-- element / key types -/
 inductive Ty where
@@ -421,6 +570,22 @@ def tableRem (addr : Nat → Bytes) (t : Table) (key : Scalar) : Option Table :=
   if t.nslots = 0 then none
   else remLoop addr key (t.nslots + 1) t ((scalarHash addr key).toNat % t.nslots) 0
 
+/-- the probe loop of `Table_Get` / `Table_Mem`: the value stored under a key eq to `key`; `none` = KeyError / false -/
+def getLoop (addr : Nat → Bytes) (key : Scalar) : Nat → Table → Nat → Nat → Option Scalar
+  | 0, _, _, _ => none
+  | fuel + 1, t, i, j =>
+    match t.slots.getD i none with
+    | none => none
+    | some s =>
+      if j > probe t.nslots i s.stored then none
+      else if keyEq addr s.k key then some s.v
+      else getLoop addr key fuel t ((i + 1) % t.nslots) (j + 1)
+
+/-- `Table_Get` (`Table_Mem` = whether it finds) -/
+def tableGet (addr : Nat → Bytes) (t : Table) (key : Scalar) : Option Scalar :=
+  if t.nslots = 0 then none
+  else getLoop addr key (t.nslots + 1) t ((scalarHash addr key).toNat % t.nslots) 0
+
 /-- `Table_New` with `pairs`, and `Table_Assign` from an iteration: `nslots = ideal(len)`, entries inserted in order without
     resizing -/
 def tableOfEntries (addr : Nat → Bytes) (es : List (Scalar × Scalar)) : Table :=
@@ -628,6 +793,14 @@ def shSet (addr : Nat → Bytes) : Sh → Scalar → Scalar → Sh
     | some c => if c = 0 then .node l (k, v) r else if c < 0 then .node (shSet addr l k v) e r else .node l e (shSet addr r k v)
     | none => .node l e r
 
+/-- `Tree_Get` / `Tree_Mem`: `c = cmp(Tree_Key(node), key)`; 0: found; `c < 0`: left; else right; `none` = KeyError / false -/
+def shGet (addr : Nat → Bytes) : Sh → Scalar → Option Scalar
+  | .nil, _ => none
+  | .node l e r, k =>
+    match scalarCmp addr e.1 k with
+    | some c => if c = 0 then some e.2 else if c < 0 then shGet addr l k else shGet addr r k
+    | none => none
+
 /-- `Tree_Maximum` from a non-NULL node: the entry at the end of the right links, and the subtree once that node (which has no
     right child) is replaced by its left child -/
 def shMax : Sh → Option ((Scalar × Scalar) × Sh)
@@ -792,6 +965,36 @@ def assignVal (addr : Nat → Bytes) (st : Store) (cls : Cls) (self src : Val) :
   | .tree _ _ _, .tree kt vt s => .ok (.tree kt vt (shOfEntries addr s.toList))
   | .tree _ _ _, .table kt vt t => .ok (.tree kt vt (shOfEntries addr t.entries))
   | _, _ => let _ := st; .error .typeError
+
+/-- which of the container `Assign`s return at once when `self is obj` -/
+structure SelfGuards where
+  array : Bool
+  list : Bool
+  table : Bool
+  tree : Bool
+deriving DecidableEq, Repr
+
+/-- the guards of the source as it is now (fix a3140e4: all four) -/
+def srcSelfGuards : SelfGuards :=
+  ⟨CelloGen.Hash.arrayAssignSelfGuard, CelloGen.Hash.listAssignSelfGuard, CelloGen.Hash.tableAssignSelfGuard,
+   CelloGen.Hash.treeAssignSelfGuard⟩
+
+/-- `assign(x, x)`: a guarded container returns at once; an unguarded one (the code before a3140e4) clears itself and then
+    iterates over the — now empty — source. Int / Float / plain struct / Ref / Box / Type behave as for any source. A heap Tuple
+    reallocates its pointer array to the same length and copies the pointers over themselves; a stack Tuple refuses. A String
+    reallocates its buffer and then `strcpy`s from the old pointer (defined only when the block does not move): not exercised,
+    and outside the statement (`SelfAssignCovered`). -/
+def assignSelfValWith (g : SelfGuards) (addr : Nat → Bytes) (st : Store) (cls : Cls) (v : Val) : Except Exc Val :=
+  match v with
+  | .seq .array ety items => .ok (if g.array then .seq .array ety items else .seq .array ety [])
+  | .seq .list ety items => .ok (if g.list then .seq .list ety items else .seq .list ety [])
+  | .table kt vt t => .ok (if g.table then .table kt vt t else .table kt vt (tableOfEntriesW addr (layoutOf kt vt) []))
+  | .tree kt vt t => .ok (if g.tree then .tree kt vt t else .tree kt vt .nil)
+  | v => assignVal addr st cls v v
+
+/-- `assign(x, x)` of the current source -/
+def assignSelfVal (addr : Nat → Bytes) (st : Store) (cls : Cls) (v : Val) : Except Exc Val :=
+  assignSelfValWith srcSelfGuards addr st cls v
 
 /-- the zero-initialised object `alloc(type_of(x))` returns -/
 def blankOf : Val → Val
